@@ -335,6 +335,25 @@ def check_case(env, rec, label, sidecar, spec, alpha, thorough):
             # a cell edited after an assembly: the next assembly is that of the edited table
             if not rev and co is orders[0]:
                 edit_after_assembly(env, rec, ti, alpha, tsv, js)
+                # the same table handed over as a DataFrame, empty cells written n/a, '' or missing (None): same annotations
+                import pandas as pd
+                cols_ = [c for c in co if c in alpha]
+                for empty, how in (("n/a", "n/a"), ("", "empty-string"), (None, "missing")):
+                    df_in = pd.DataFrame({"onset_like": [str(i) for i in range(len(rows))],
+                                          **{c: [(empty if r[c] == "n/a" else r[c]) for r in rows] for c in cols_}})
+                    if how != "n/a" and not any(r[c] == "n/a" for r in rows for c in cols_):
+                        continue
+                    try:
+                        got_df = list(TabularInput(df_in, sidecar=Sidecar(io.StringIO(js))).series_a)
+                    except Exception as e:
+                        rec.violation(f"C06:dataframe-input-raises:{type(e).__name__}:{how}", sidecar=js, error=repr(e)[:200])
+                        continue
+                    rec.n("transitions")
+                    bad = [(i, a, b) for i, (a, b) in enumerate(zip(ser, got_df)) if a != b]
+                    if bad or len(got_df) != len(ser):
+                        rec.violation(f"C06:dataframe-input-assembles-differently:{how}", sidecar=js,
+                                      row=rows[bad[0][0]] if bad else None, from_file=bad[0][1] if bad else None,
+                                      from_frame=bad[0][2] if bad else None)
             if frame_snapshot(ti.dataframe) != frame_before:
                 rec.violation("C06:table-changed-by-assembly", sidecar=js, table=tsv[:200])
             if sc.loaded_dict != side_before:
